@@ -89,7 +89,10 @@ def sh(cmd, cwd=None, env=None, timeout=None, stdin=None, stdout_path=None):
 def sync_alt():
     if ALT:
         os.makedirs(WORK, exist_ok=True)
-        subprocess.run(["rsync", "-a", "--delete", os.path.join(VERIF, "lean") + "/", LEAN + "/"], check=True)
+        # rc 24 = "some files vanished" (somebody is building in /verif/lean at this moment): harmless
+        r = subprocess.run(["rsync", "-a", "--delete", os.path.join(VERIF, "lean") + "/", LEAN + "/"])
+        if r.returncode not in (0, 24):
+            raise RuntimeError("rsync of the Lean project failed: rc=%d" % r.returncode)
 
 
 def load_config(pid):
